@@ -180,6 +180,7 @@ func runDiff(s Script, v *vt.V) {
 	}
 	defer built.Close()
 	envA, envB := ops.NewEnv(u, memA), ops.NewEnv(u, built.Top)
+	envA.OverlapReads, envB.OverlapReads = true, true // content read by digest earlier is read again beside every reader
 	defer envA.CloseAll()
 	defer envB.CloseAll()
 	m := model.New(s.Hist.Immutable)
@@ -193,6 +194,10 @@ func runDiff(s Script, v *vt.V) {
 		}
 		a := envA.Exec(op)
 		b := envB.Exec(op)
+		if a.Overlap != "" || b.Overlap != "" {
+			v.Failf("overlapping-readers", "op %d %+v through %s: direct: %q; through the stack: %q", i, op, s.Stack, a.Overlap, b.Overlap)
+			return
+		}
 		if op.K == "upCommit" && (a.Err != "" || b.Err != "") {
 			// What a writer is good for after its commit was refused is not specified
 			// (over HTTP the refused PUT may or may not have delivered its data):
